@@ -45,10 +45,13 @@ func main() {
 func generate(f gen.Flags) {
 	digest = nil // the corpus is not part of the cross-process comparison
 	r := gen.NewRand(f.Seed)
-	unitCases(r.Fork(), f.N(12, 120), f.N(6, 8))
-	sortCases(r.Fork(), f.N(400, 8000))
-	nDirs := f.N(4, 40)
 	child := os.Getenv("C29_CHILD") != ""
+	ru, rs := r.Fork(), r.Fork()
+	if !child { // the second process only repeats end-to-end searches (same PRNG stream for them)
+		unitCases(ru, f.N(12, 120), f.N(6, 8))
+		sortCases(rs, f.N(400, 8000))
+	}
+	nDirs := f.N(4, 40)
 	for i := 0; i < nDirs; i++ {
 		genE2E(r.Fork(), f.N(6, 15), 5)
 		if i == 1 {
